@@ -24,7 +24,7 @@ SPELL = {
 }
 INTS = ['0', '1', '2', '3', '7', '10', '-1', '-4', '12', '100', '0']
 FLOATS = ['0.5', '2.5', '-1.5', '10.25', '0.0', '3.75', '-0.25', '2.0']
-KEYS = ['a', 'b', 'ab', 'a b', 'c']
+KEYS = ['a', 'B', 'ab', 'a b', 'c', 'b', 'Zz', 'é']
 
 
 def classify(mech, case, got, ref):
@@ -45,7 +45,7 @@ def gen_numeric_table(rng):
     nrows = rng.choice([0, 1, 2, 3, 4, 5, 6, 8, 12]) if rng.random() < 0.9 else rng.randrange(12, 40)
     nkeys = rng.choice([1, 1, 2])
     nvals = rng.choice([1, 2, 3])
-    kvals = [KEYS[:rng.randrange(1, 6)] for _ in range(nkeys)]
+    kvals = [rng.sample(KEYS, rng.randrange(1, 6)) for _ in range(nkeys)]
     kinds = [rng.choice(['int', 'int', 'float', 'mixed', 'zeros']) for _ in range(nvals)]
     A = []
     for r in range(nrows):
